@@ -453,6 +453,8 @@ def r8_defaults(ctx):
                 a = r[2][0]
                 if any(x[0] in ("mu", "prev") or (x[0] == "call" and callee(x) in (".filter", ".predict")) for x in walk(a)):
                     verdict, why = False, "region_ is computed from a filter/predict result, not from the coordinates given to fit"
+                elif ("param", "coordinates") not in Q.leaves(a) and Q.leaves(a):
+                    verdict, why = False, "region_ is the bounding box of %s, which is not derived from the coordinates given to fit" % show(a)[:60]
                 elif Q.leaves(a) - {("param", "coordinates"), ("param", "data"), ("param", "weights")}:
                     verdict, why = (verdict if verdict is False else None), "region_ depends on %s" % sorted(show(x) for x in Q.leaves(a))
                 elif ("param", "coordinates") in Q.leaves(a) and verdict is not False:
